@@ -311,12 +311,18 @@ func NewDB(opts *DBOpts) (*DB, error) {
 
 // FlushAll flushes all tables
 func (db *DB) FlushAll() {
-	db.tablesMutex.Lock()
+	// Don't hold tablesMutex while flushing: a forced flush of a database with
+	// a memory cap consults shouldSort(), which needs tablesMutex itself.
+	db.tablesMutex.RLock()
+	tables := make(map[string]*table, len(db.tables))
 	for name, table := range db.tables {
+		tables[name] = table
+	}
+	db.tablesMutex.RUnlock()
+	for name, table := range tables {
 		db.log.Debugf("Force flushing table: %v", name)
 		table.forceFlush()
 	}
-	db.tablesMutex.Unlock()
 	db.log.Debug("Done force flushing tables")
 }
 
